@@ -461,7 +461,9 @@ def run(ctx):
     py_bad = []
     corpus = [dict(ny=8, nx=8, cy=2, cx=2, slope=2.0, ma=10, seed=3), dict(ny=12, nx=16, cy=0, cx=0, slope=8.0, ma=30, seed=3),
               dict(ny=16, nx=16, cy=4, cx=4, slope=4.0, ma=30, seed=0), dict(ny=9, nx=5, cy=3, cx=1, slope=1.0, ma=2, seed=7),
-              dict(ny=4, nx=4, cy=0, cx=0, slope=0.5, ma=1, seed=1)]
+              dict(ny=4, nx=4, cy=0, cx=0, slope=0.5, ma=1, seed=1),
+              # 5707 draws on a 4 x 12 grid: far more outer iterations than pixels (samples accepted in pixels already set)
+              dict(ny=4, nx=12, cy=2, cx=0, slope=2.0, ma=30, seed=151201803)]
     budget = 0
     while len(corr) < n_corr:
         c = corpus[len(corr)] if len(corr) < len(corpus) else gen_corr_case(rng)
